@@ -4,6 +4,8 @@
 mod c02;
 mod c04;
 mod c05;
+mod c13;
+mod c17;
 mod c18;
 mod frag;
 mod gen;
@@ -30,6 +32,8 @@ fn main() {
         "interp-ops" => interp::ops(rest),
         "c02-spec" => c02::spec(rest),
         "c03-spec" => frag::spec(rest),
+        "c13-spec" => c13::spec(rest),
+        "c17-spec" => c17::spec(rest),
         "c06-spec" => props::c06(rest),
         "c07-spec" => props::c07(rest),
         "c08-spec" => props::c08(rest),
